@@ -46,3 +46,5 @@ func vecBuildMenu() []spec.Batch { return nil }
 func vecBuildOracle(seg segment.Segment, exp *ref.Content) string { return "" }
 
 func refVecDocs() []spec.Doc { return nil }
+
+func engineMisuse() string { return "" }
